@@ -387,12 +387,17 @@ def vgbs_config(res, case, groups=None):
                 V("C20|A_to_cov|valid-pure-covariance", f"A_to_cov(A) is not a real symmetric covariance with all symplectic eigenvalues hbar/2 (A={np.round(A_ref, 6).tolist()})", ex)
             else:
                 Am, _ = amat_from_cov(cov_r, hb)
-                Aexp = np.block([[A_ref, np.zeros((n, n))], [np.zeros((n, n)), np.conj(A_ref)]])
+                Z = np.zeros((n, n))
+                Aexp = np.block([[A_ref, Z], [Z, np.conj(A_ref)]])
                 if not close(Am, Aexp, 1e-7, 1e-8):
-                    ph_txt = ""
-                    if close(Am, np.block([[-1j * A_ref, np.zeros((n, n))], [np.zeros((n, n)), 1j * A_ref]]), 1e-7, 1e-8):
-                        ph_txt = " (it is -iA (+) iA: the state of A with every mode rotated by a quarter of pi)"
-                    V("C20|A_to_cov|Amat", f"the A-matrix of A_to_cov(A) differs from A (+) A* by {maxdiff(Am, Aexp):.3g}{ph_txt}; A={np.round(A_ref, 6).tolist()}", ex)
+                    # weaker statement: the state of A up to one common phase rotation of all modes (same photon statistics)
+                    k = np.unravel_index(np.argmax(np.abs(A_ref)), A_ref.shape)
+                    u = Am[:n, :n][k] / A_ref[k]
+                    same_stats = abs(abs(u) - 1) < 1e-7 and close(Am, np.block([[u * A_ref, Z], [Z, np.conj(u * A_ref)]]), 1e-7, 1e-8)
+                    if same_stats:
+                        V("C20|A_to_cov|Amat", f"the A-matrix of A_to_cov(A) is ({u:.4g}) A (+) c.c. instead of A (+) A*: the returned matrix is the covariance of the state of A with every mode rotated by the same phase (photon statistics unchanged, quadrature statistics not); A={np.round(A_ref, 6).tolist()}", ex)
+                    else:
+                        V("C20|A_to_cov|Amat-up-to-global-phase", f"the A-matrix of A_to_cov(A) differs from A (+) A* by {maxdiff(Am, Aexp):.3g}, also up to a common phase; A={np.round(A_ref, 6).tolist()}", ex)
             # hbar scaling (module global, restored)
             old = sf.hbar
             try:
@@ -544,7 +549,7 @@ def work_vgbs(task):
             if any(theta):
                 res.nt += 1
                 if len(res.samples) < 1:
-                    res.sample({"part": "vgbs", "A": A, "n_mean": n_mean, "embedding": spec[0], "theta": list(theta), "threshold": thr})
+                    res.sample({"part": "vgbs", "case": f"A={A} n_mean={n_mean} {spec[0]}{'' if spec[0] == 'Exp' else '(F=' + str(spec[1]) + ')'} theta={list(theta)} threshold={thr} patterns<={nmax} photons"})
     return res
 
 
@@ -734,6 +739,8 @@ def work_sim(task):
     _, n, edges, n_mean, loss = task
     res = Res()
     sim_case(res, {"part": "sim", "n": n, "edges": [list(e) for e in edges], "n_mean": n_mean, "loss": loss})
+    if n == 4 and loss:
+        res.sample({"part": "sim", "case": f"{n}-node graph edges={[list(e) for e in edges]} n_mean={n_mean} loss={loss}: all orbits and non-empty events with <= 4 photons"})
     return res
 
 
@@ -805,8 +812,9 @@ def gbs_case(res, case, marg=6):
     txt = f"w={w.tolist()} wp={wp.tolist()} Ud={np.round(Ud, 6).tolist()} delta={delta.tolist()} T={T}"
     if not (close(U1 @ U1.conj().T, np.eye(n), 0, 1e-10) and close(U2 @ U2.conj().T, np.eye(n), 0, 1e-10)):
         res.violation("C20|gbs_params|unitary", f"U1 or U2 is not unitary for {txt}", case)
-    if not close(U2 @ np.diag(np.exp(r)) @ U1, J, 1e-9, 1e-10):
-        res.violation("C20|gbs_params|duschinsky-relation", f"U2 diag(e^r) U1 differs from diag(wp^.5) Ud diag(w^-.5) by {maxdiff(U2 @ np.diag(np.exp(r)) @ U1, J):.3g} for {txt}", case)
+    # singular-value relation; the sign convention of r is decided by the Doktorov oracle below, not here
+    if not (close(U2 @ np.diag(np.exp(r)) @ U1, J, 1e-9, 1e-10) or close(U2 @ np.diag(np.exp(-np.asarray(r))) @ U1, J, 1e-9, 1e-10)):
+        res.violation("C20|gbs_params|duschinsky-relation", f"neither U2 diag(e^r) U1 nor U2 diag(e^-r) U1 equals diag(wp^.5) Ud diag(w^-.5) (differences {maxdiff(U2 @ np.diag(np.exp(r)) @ U1, J):.3g}, {maxdiff(U2 @ np.diag(np.exp(-np.asarray(r))) @ U1, J):.3g}) for {txt}", case)
     if not close(alpha, delta / np.sqrt(2), 1e-12, 1e-14):
         res.violation("C20|gbs_params|alpha", f"alpha={np.asarray(alpha).tolist()} != delta/sqrt2 for {txt}", case)
     nbar = bose_einstein(w, T)
@@ -864,6 +872,8 @@ def work_gbs(task):
             if not ident or any(delta):
                 res.nt += 1
             gbs_case(res, case, marg)
+    if not ident:
+        res.sample({"part": "gbs", "case": f"w={list(w)} wp={list(wp)} Ud={np.round(Ud, 4).tolist()} delta in {[list(d) for d in deltas[:2]]}.. T in {list(Ts)} marginals n_max={marg}"})
     return res
 
 
@@ -974,6 +984,7 @@ def work_tevo(task):
             if t and not np.allclose(Ul, np.eye(len(w))):
                 res.nt += 1
             tevo_case(res, {"part": "tevo", "w": list(w), "Ul": np.asarray(Ul).tolist(), "t": t}, fock)
+    res.sample({"part": "tevo", "case": f"w={list(w)} Ul={np.round(Uls[-1], 4).tolist()} t in {list(ts)} Fock-backend runs={fock}"})
     return res
 
 
@@ -1100,9 +1111,14 @@ def run(ctx):
     nfock = sum(1 for t in ct if t[0] in ("fcf", "tevo") and (t[0] == "fcf" or t[4]))
     tasks = ct[:nfock] + vt + ct[nfock:] + st  # JIT-heavy and long work units first
     done = 0
+    by_part = {}
     for r in ctx.pmap(work, tasks, chunksize=1):
         ctx.add(r)
         done += 1
+        for smp in r.samples:
+            lst = by_part.setdefault(smp["part"], [])
+            if len(lst) < 2:
+                lst.append(smp["case"])
         if ctx.time_left() < 0:
             ctx.close()
             ctx.cap_hit(f"time budget hit after {done} of {len(tasks)} work units")
@@ -1110,6 +1126,7 @@ def run(ctx):
     exp_configs = n_configs(vt)
     if ctx.exhaustive and ctx.stats["A.configs"] != exp_configs:
         raise RuntimeError(f"enumerated {ctx.stats['A.configs']} VGBS configurations, declared {exp_configs}")
+    ctx.cov["samples"] = {k: by_part[k] for k in sorted(by_part)}
     ctx.cov["work_units"] = {"vgbs": len(vt), "chemistry": len(ct), "similarity": len(st), "completed": done}
     ctx.cov["declared_lattice"] = {
         "A.adjacency_matrices": dict(vdecl, note=("graphs with >= 1 edge: 2 nodes all (1); 3 and 4 nodes one representative per isomorphism class (3, 10)" if quick else "all labelled graphs with >= 1 edge on 2, 3, 4 nodes (1, 7, 63)") + "; plus one fixed weighted symmetric matrix (non-zero diagonal, negative entries) per size"),
